@@ -4,6 +4,7 @@ package main
 // calls by contract, inlining, havoc.
 
 import (
+	"go/constant"
 	"sort"
 	"os"
 	"fmt"
@@ -585,6 +586,13 @@ func (c *VC) rowCopy(st *State, dst *Term, dpos *Term, src *Term, spos *Term, n 
 }
 
 func (c *VC) builtinAppend(st *State, call *ast.CallExpr) *Term {
+	return c.builtinAppendWith(st, call, nil)
+}
+
+// builtinAppendWith: append(call.Args[0], src...) where src is the given string term (used by
+// intrinsics that append a computed text, e.g. strconv.AppendUint); with synth == nil the
+// ordinary append call.
+func (c *VC) builtinAppendWith(st *State, call *ast.CallExpr, synth *Term) *Term {
 	it := types.Typ[types.Int]
 	t := c.typeOf(call)
 	elemT := t.Underlying().(*types.Slice).Elem()
@@ -597,7 +605,12 @@ func (c *VC) builtinAppend(st *State, call *ast.CallExpr) *Term {
 	var k *Term // number of appended elements
 	var nrow *Term
 	start := c.binop(token.ADD, off, ln, it)
-	if call.Ellipsis.IsValid() {
+	if synth != nil {
+		hn, h = c.sliceHeap(st, elemT)
+		row = c.sel(h, base)
+		k = mkField(synth, "st_len")
+		nrow = c.rowCopy(st, row, start, mkField(synth, "st_arr"), mkField(synth, "st_off"), k)
+	} else if call.Ellipsis.IsValid() {
 		srcT := c.typeOf(call.Args[1])
 		src := c.eval(st, call.Args[1])
 		hn, h = c.sliceHeap(st, elemT)
@@ -717,9 +730,62 @@ func (c *VC) intrinsic(st *State, fn *types.Func, call *ast.CallExpr) ([]*Term, 
 					u8 := types.Typ[types.Uint8]
 					c.addFact(tTrue, mkImplies(mkAnd(mkNot(empty), c.cmp(token.LSS, b0, c.numLit(bigInt(0x80), u8), u8)),
 						mkAnd(mkEq(n, c.idxLit(1)), mkEq(r, c.convertInt(b0, u8, rt)))))
+					// documented: the result is RuneError (U+FFFD, size 1) for an invalid encoding, otherwise
+					// the rune of the shortest-form UTF-8 sequence at the start: a rune below 0x80 only
+					// comes from a single ASCII byte; a sequence of 2/3/4 bytes (each >= 0x80) encodes a rune
+					// in [0x80,0x800) / [0x800,0x10000) / [0x10000,0x10FFFF]
+					rl := func(v int64) *Term { return c.numLit(bigInt(v), rt) }
+					c.addFact(tTrue, mkAnd(c.cmp(token.LEQ, rl(0), r, rt), c.cmp(token.LEQ, r, rl(0x10FFFF), rt)))
+					hi := c.cmp(token.GEQ, b0, c.numLit(bigInt(0x80), u8), u8)
+					c.addFact(tTrue, mkImplies(mkAnd(mkNot(empty), hi), c.cmp(token.GEQ, r, rl(0x80), rt)))
+					c.addFact(tTrue, mkImplies(mkAnd(mkNot(empty), hi, mkEq(n, c.idxLit(1))), mkEq(r, rl(0xFFFD))))
+					lo := []int64{0, 0, 0x80, 0x800, 0x10000}
+					up := []int64{0, 0, 0x800, 0x10000, 0x110000}
+					for k := 2; k <= 4; k++ {
+						var hs []*Term
+						for j := 0; j < k; j++ {
+							hs = append(hs, c.cmp(token.GEQ, c.strByte(sv, c.idxLit(int64(j))), c.numLit(bigInt(0x80), u8), u8))
+						}
+						hs = append(hs, c.cmp(token.LEQ, rl(lo[k]), r, rt), c.cmp(token.LSS, r, rl(up[k]), rt))
+						c.addFact(tTrue, mkImplies(mkEq(n, c.idxLit(int64(k))), mkAnd(hs...)))
+					}
 				}
 			}
 			return []*Term{r, n}, true
+		}
+	case "strconv.AppendUint":
+		// append(dst, FormatUint(v, base)...) with, for the constant base 16, the documented facts
+		// about the text: lower-case hexadecimal digits only, no leading zeros (one digit for 0)
+		if c.mode == ModeInt && len(call.Args) == 3 {
+			v := c.eval(st, call.Args[1])
+			bv := c.eval(st, call.Args[2])
+			u64 := types.Typ[types.Uint64]
+			u8 := types.Typ[types.Uint8]
+			sv := c.uf("pure_strconv_FormatUint", c.strSort(), v, bv)
+			if !c.noName && c.quantDepth == 0 {
+				key := "fu:" + sv.String()
+				if !c.specAxioms[key] {
+					c.specAxioms[key] = true
+					c.assumptions["strconv.AppendUint/FormatUint: length and digit alphabet of the text (base 16) are taken from its documentation (assumed)"] = true
+					ln := mkField(sv, "st_len")
+					c.addFact(tTrue, mkAnd(c.cmp(token.LEQ, c.idxLit(1), ln, it), c.cmp(token.LEQ, ln, c.idxLit(64), it),
+						c.cmp(token.LEQ, c.idxLit(0), mkField(sv, "st_off"), it)))
+					if bv.Val != nil && bv.Val.Int64() == 16 {
+						d := c.idxLit(16)
+						for k := 15; k >= 1; k-- {
+							d = mkIte(c.cmp(token.LSS, v, c.numLit(new(big.Int).Lsh(big.NewInt(1), uint(4*k)), u64), u64), c.idxLit(int64(k)), d)
+						}
+						c.addFact(tTrue, mkEq(ln, d))
+						j := c.boundVar("j", c.idxSort())
+						b := c.strByte(sv, j)
+						isDigit := mkAnd(c.cmp(token.LEQ, c.numLit(bigInt('0'), u8), b, u8), c.cmp(token.LEQ, b, c.numLit(bigInt('9'), u8), u8))
+						isAF := mkAnd(c.cmp(token.LEQ, c.numLit(bigInt('a'), u8), b, u8), c.cmp(token.LEQ, b, c.numLit(bigInt('f'), u8), u8))
+						in := mkAnd(c.cmp(token.LEQ, c.idxLit(0), j, it), c.cmp(token.LSS, j, ln, it))
+						c.facts = append(c.facts, mkForall([]*Term{j}, mkImplies(in, mkOr(isDigit, isAF)), b))
+					}
+				}
+			}
+			return []*Term{c.builtinAppendWith(st, call, sv)}, true
 		}
 	case "math.Signbit":
 		// the sign bit of the IEEE bit pattern; a float32 widened to float64 keeps its sign
@@ -761,7 +827,7 @@ func (c *VC) intrinsic(st *State, fn *types.Func, call *ast.CallExpr) ([]*Term, 
 					c.assumptions["strconv.ParseUint: a successful base-16 parse implies a non-empty all-hex-digit text and a value within the bit size (documented behaviour, assumed)"] = true
 					c.addFact(tTrue, c.wfAt(st, v, u64))
 					ok := mkEq(e, intLit64(0))
-					if bv.Val != nil && bv.Val.Int64() == 16 && c.mode == ModeInt {
+					if bv.Val != nil && (bv.Val.Int64() == 16 || bv.Val.Int64() == 8) && c.mode == ModeInt {
 						ln := mkField(sv, "st_len")
 						k := c.boundVar("k", c.idxSort())
 						c.varBounds[k.Op] = interval{bigInt(0), pow2(maxLenBits)}
@@ -770,6 +836,9 @@ func (c *VC) intrinsic(st *State, fn *types.Func, call *ast.CallExpr) ([]*Term, 
 						u8 := types.Typ[types.Uint8]
 						rng := func(lo, hi byte) *Term { return mkAnd(c.cmp(token.LEQ, lit(lo), ch, u8), c.cmp(token.LEQ, ch, lit(hi), u8)) }
 						hex := mkOr(rng('0', '9'), rng('a', 'f'), rng('A', 'F'))
+						if bv.Val.Int64() == 8 {
+							hex = rng('0', '7')
+						}
 						c.addFact(tTrue, mkImplies(ok, mkAnd(c.cmp(token.LSS, c.idxLit(0), ln, it),
 							mkForall([]*Term{k}, mkImplies(mkAnd(c.cmp(token.LEQ, c.idxLit(0), k, it), c.cmp(token.LSS, k, ln, it)), hex)))))
 					}
@@ -803,6 +872,52 @@ func (c *VC) intrinsic(st *State, fn *types.Func, call *ast.CallExpr) ([]*Term, 
 			}
 		}
 		return []*Term{r}, true
+	case "bytes.TrimLeft", "strings.TrimLeft":
+		// documented: s without its longest prefix of characters contained in the cutset; modelled for
+		// a constant ASCII cutset: the result is s[k:], bytes before k are in the set, byte k is not
+		if tv, ok := c.cur().view.typeOf(call.Args[1]); ok && tv.Value != nil && tv.Value.Kind() == constant.String && c.mode == ModeInt {
+			set := constant.StringVal(tv.Value)
+			ascii := true
+			for i := 0; i < len(set); i++ {
+				if set[i] >= 0x80 {
+					ascii = false
+				}
+			}
+			if ascii {
+				u8 := types.Typ[types.Uint8]
+				arg := c.eval(st, call.Args[0])
+				isSlice := false
+				var sv *Term
+				if u, ok := c.typeOf(call.Args[0]).Underlying().(*types.Slice); ok {
+					isSlice = true
+					_, h := c.sliceHeap(st, u.Elem())
+					sv = mkCtor(c.strSort(), c.sel(h, mkField(arg, "sl_base")), mkField(arg, "sl_off"), mkField(arg, "sl_len"))
+				} else {
+					sv = arg
+				}
+				ln := mkField(sv, "st_len")
+				k := c.fresh("trim", c.idxSort())
+				inSet := func(b *Term) *Term {
+					var alts []*Term
+					for i := 0; i < len(set); i++ {
+						alts = append(alts, mkEq(b, c.numLit(bigInt(int64(set[i])), u8)))
+					}
+					return mkOr(alts...)
+				}
+				c.assumptions[name+": modelled by its documentation for a constant ASCII cutset (assumed)"] = true
+				c.addFact(tTrue, mkAnd(c.cmp(token.LEQ, c.idxLit(0), k, it), c.cmp(token.LEQ, k, ln, it)))
+				c.addFact(tTrue, mkImplies(c.cmp(token.LSS, k, ln, it), mkNot(inSet(c.strByte(sv, k)))))
+				j := c.boundVar("j", c.idxSort())
+				c.varBounds[j.Op] = interval{bigInt(0), pow2(maxLenBits)}
+				bj := c.strByte(sv, j)
+				c.facts = append(c.facts, mkForall([]*Term{j}, mkImplies(mkAnd(c.cmp(token.LEQ, c.idxLit(0), j, it), c.cmp(token.LSS, j, k, it)), inSet(bj)), bj))
+				if isSlice {
+					return []*Term{mkCtor(c.sliceSort(), mkField(arg, "sl_base"), c.binop(token.ADD, mkField(arg, "sl_off"), k, it),
+						c.binop(token.SUB, mkField(arg, "sl_len"), k, it), c.binop(token.SUB, mkField(arg, "sl_cap"), k, it))}, true
+				}
+				return []*Term{mkCtor(c.strSort(), mkField(sv, "st_arr"), c.binop(token.ADD, mkField(sv, "st_off"), k, it), c.binop(token.SUB, ln, k, it))}, true
+			}
+		}
 	case "strings.TrimPrefix":
 		// documented: s without the leading prefix, or s unchanged
 		sv := c.eval(st, call.Args[0])
@@ -835,7 +950,26 @@ func (c *VC) intrinsic(st *State, fn *types.Func, call *ast.CallExpr) ([]*Term, 
 	case "math/bits.LeadingZeros64", "math/bits.LeadingZeros32", "math/bits.LeadingZeros8", "math/bits.LeadingZeros16",
 		"math/bits.Len64", "math/bits.Len32", "math/bits.Len", "math/bits.Len8", "math/bits.Len16":
 		if c.mode != ModeBV {
-			break
+			if !strings.Contains(name, "Len") {
+				break
+			}
+			// int mode: minimum number of bits needed to represent x (0 for 0)
+			x := c.nameVal("lenx", c.eval(st, call.Args[0]))
+			xt := c.typeOf(call.Args[0])
+			w := 64
+			switch name {
+			case "math/bits.Len32":
+				w = 32
+			case "math/bits.Len16":
+				w = 16
+			case "math/bits.Len8":
+				w = 8
+			}
+			r := c.idxLit(int64(w))
+			for k := w - 1; k >= 0; k-- {
+				r = mkIte(c.cmp(token.LSS, x, c.numLit(new(big.Int).Lsh(big.NewInt(1), uint(k)), xt), xt), c.idxLit(int64(k)), r)
+			}
+			return []*Term{c.name("bitlen", r)}, true
 		}
 		x := c.eval(st, call.Args[0])
 		w := x.Sort.Width
@@ -1035,7 +1169,11 @@ func (c *VC) havocDynamic(st *State, call *ast.CallExpr, args []*Term) []*Term {
 	}
 	pre := st.clone()
 	c.checkUnknownWrites(st, call.Pos(), exprText(c.prog.fset, call.Fun))
+	keep := c.frameLocalRows(st)
 	c.havocHeaps(st)
+	for _, k := range keep {
+		st.heaps[k.heap] = mkStore(st.heaps[k.heap], k.base, k.row)
+	}
 	na := c.fresh("alloc", sortInt)
 	c.addFact(tTrue, mk(">=", sortBool, na, st.alloc))
 	st.alloc = na
@@ -1889,3 +2027,218 @@ func (c *VC) specFrame(name string, ps []*types.Var, args, rows []*Term, r *Term
 }
 
 var _ = big.NewInt
+
+// ---------------------------------------------------------------- frame-local arrays
+
+type keptRow struct {
+	heap      string
+	base, row *Term
+}
+
+// frameLocalRows: the heap rows of the array locals the contract declares `frame-local` (and that
+// pass the syntactic non-escape check): a call with unknown effects cannot reach them, because
+// their address was never handed to anything that could keep it.
+func (c *VC) frameLocalRows(st *State) []keptRow {
+	if len(c.frames) != 1 {
+		return nil
+	}
+	d := c.fn.Dir
+	if c.fn.Contract != nil {
+		d = c.fn.Contract.Dir
+	}
+	if d == nil || len(d.FrameLocal) == 0 {
+		return nil
+	}
+	fr := c.cur()
+	var out []keptRow
+	for obj := range fr.arrBoxed {
+		want := false
+		for _, n := range d.FrameLocal {
+			if n == obj.Name() {
+				want = true
+			}
+		}
+		if !want {
+			continue
+		}
+		if why := c.escapes(obj); why != "" {
+			c.unsupportedf(obj.Pos(), "frame-local %s ignored: %s", obj.Name(), why)
+			continue
+		}
+		hdr, ok := st.env[obj]
+		if !ok {
+			continue
+		}
+		at := obj.Type().Underlying().(*types.Array)
+		hn, h := c.sliceHeap(st, at.Elem())
+		base := mkField(hdr, "sl_base")
+		out = append(out, keptRow{hn, base, c.sel(h, base)})
+	}
+	return out
+}
+
+// escapes reports why the array local obj (or a slice of it) may be reachable from outside the
+// function ("" = it provably is not). Allowed uses of the array A and of its alias slices S
+// (S := A[..], S = S[..], S = append(S, scalars...)): indexing, slicing into an alias, len/cap,
+// range, and passing to a static function that has a (non-trusted) contract and returns no
+// reference-typed result.
+func (c *VC) escapes(arr types.Object) string {
+	view := c.cur().view
+	alias := map[types.Object]bool{arr: true}
+	isAliasExpr := func(e ast.Expr) bool {
+		// expression denoting (part of) the array: A, S, A[..], S[..], append(S, ...)
+		for {
+			switch x := ast.Unparen(e).(type) {
+			case *ast.Ident:
+				return alias[view.objOf(x)]
+			case *ast.SliceExpr:
+				e = x.X
+			case *ast.CallExpr:
+				if id, ok := x.Fun.(*ast.Ident); ok && id.Name == "append" && len(x.Args) > 0 {
+					e = x.Args[0]
+					continue
+				}
+				return false
+			default:
+				return false
+			}
+		}
+	}
+	// aliases: fixpoint over assignments
+	for changed := true; changed; {
+		changed = false
+		ast.Inspect(c.fn.Decl.Body, func(n ast.Node) bool {
+			as, ok := n.(*ast.AssignStmt)
+			if !ok || len(as.Lhs) != len(as.Rhs) {
+				return true
+			}
+			for i, r := range as.Rhs {
+				if !isAliasExpr(r) {
+					continue
+				}
+				if id, ok := as.Lhs[i].(*ast.Ident); ok {
+					if o := view.objOf(id); o != nil && !alias[o] {
+						if _, isVar := o.(*types.Var); isVar && o.Parent() != nil && o.Parent() != o.Pkg().Scope() {
+							alias[o] = true
+							changed = true
+						}
+					}
+				}
+			}
+			return true
+		})
+	}
+	why := ""
+	var stack []ast.Node
+	ast.Inspect(c.fn.Decl.Body, func(n ast.Node) bool {
+		if n == nil {
+			stack = stack[:len(stack)-1]
+			return true
+		}
+		stack = append(stack, n)
+		if _, isLit := n.(*ast.FuncLit); isLit {
+			// a closure capturing the array: give up if it mentions an alias
+			ast.Inspect(n, func(m ast.Node) bool {
+				if id, ok := m.(*ast.Ident); ok && alias[view.objOf(id)] {
+					why = "captured by a function literal"
+				}
+				return true
+			})
+			return true
+		}
+		id, ok := n.(*ast.Ident)
+		if !ok || !alias[view.objOf(id)] || why != "" {
+			return true
+		}
+		// climb through slicing / append wrappers to the context that consumes the reference
+		i := len(stack) - 2
+		var child ast.Node = id
+		for i >= 0 {
+			switch p := stack[i].(type) {
+			case *ast.ParenExpr:
+				child = p
+				i--
+				continue
+			case *ast.SliceExpr:
+				if p.X == child {
+					child = p
+					i--
+					continue
+				}
+				return true // used as a bound: scalar
+			case *ast.IndexExpr:
+				return true // element access or scalar index
+			case *ast.CallExpr:
+				if f, ok := p.Fun.(*ast.Ident); ok {
+					switch f.Name {
+					case "len", "cap":
+						return true
+					case "append":
+						if len(p.Args) > 0 && p.Args[0] == child {
+							if p.Ellipsis.IsValid() {
+								// append(S, other...) copies elements only
+							}
+							child = p
+							i--
+							continue
+						}
+						if p.Ellipsis.IsValid() && len(p.Args) == 2 && p.Args[1] == child {
+							return true // elements copied out
+						}
+						why = "passed to append as an element"
+						return true
+					case "copy":
+						return true
+					}
+				}
+				fn := c.staticCallee(p)
+				if fn == nil {
+					why = "passed to a dynamic call " + exprText(c.prog.fset, p.Fun)
+					return true
+				}
+				fi := c.prog.funcs[fn]
+				if fi == nil || fi.Contract == nil || (fi.Contract.Dir != nil && fi.Contract.Dir.Trusted) {
+					why = "passed to " + fn.Name() + ", which has no verified contract"
+					return true
+				}
+				res := fn.Type().(*types.Signature).Results()
+				for k := 0; k < res.Len(); k++ {
+					b, ok := res.At(k).Type().Underlying().(*types.Basic)
+					if !ok || b.Kind() == types.UnsafePointer {
+						why = "passed to " + fn.Name() + ", which returns a non-scalar"
+					}
+				}
+				return true
+			case *ast.AssignStmt:
+				for k, r := range p.Rhs {
+					if r == child {
+						if len(p.Lhs) != len(p.Rhs) {
+							why = "assigned in a multi-value statement"
+							return true
+						}
+						l, ok := p.Lhs[k].(*ast.Ident)
+						if !ok || !alias[view.objOf(l)] {
+							why = "stored outside the function's own slice variables"
+						}
+						return true
+					}
+				}
+				return true // on the left-hand side
+			case *ast.RangeStmt:
+				if p.X == child {
+					return true
+				}
+				return true
+			case *ast.ValueSpec, *ast.DeclStmt, *ast.GenDecl:
+				return true
+			case *ast.BinaryExpr:
+				return true // comparison with nil
+			default:
+				why = fmt.Sprintf("used in %T", p)
+				return true
+			}
+		}
+		return true
+	})
+	return why
+}
